@@ -30,7 +30,7 @@ open Refinery.Locks
 /-- **No data race under a discipline.** In every well-formed trace in which every access complies
 with the discipline of its location, two conflicting accesses (same location, different threads,
 at least one write, not both atomic) are ordered by happens-before. -/
-theorem discipline_sound (tr : Trace) (D : String → Discipline) (wf : WF tr) (hc : AllComply tr D) :
+theorem discipline_sound (tr : Trace) (D : Nat → Discipline) (wf : WF tr) (hc : AllComply tr D) :
     ∀ i j, i < j → Conflict tr i j → HB tr i j := by
   intro i j hij ⟨a, ha, b, hb, haacc, hbacc, hobj, hne, hw, hat⟩
   have hCa := hc i (lt_of_some ha) a ha haacc
@@ -98,7 +98,7 @@ theorem discipline_sound (tr : Trace) (D : String → Discipline) (wf : WF tr) (
             · exact absurd hbr h
 
 /-- Corollary in the property's words: a well-formed, compliant trace has no data race. -/
-theorem no_race (tr : Trace) (D : String → Discipline) (wf : WF tr) (hc : AllComply tr D) :
+theorem no_race (tr : Trace) (D : Nat → Discipline) (wf : WF tr) (hc : AllComply tr D) :
     ∀ i j, ¬ Race tr i j := by
   intro i j ⟨hij, hcf, hn⟩
   exact hn (discipline_sound tr D wf hc i j hij hcf)
@@ -111,7 +111,7 @@ theorem hb_forward (tr : Trace) (i j : Nat) (h : HB tr i j) : i < j := h.lt
 instance of the lexical fact `f` (same location and kind; the lexically held mutexes are really
 held; the function's role is played by the thread the role table says) and `f` passes
 `factComplies` for the discipline `d`, then `e` complies with `d` interpreted over threads. -/
-theorem table_sound (tr : Trace) (thr : String → Nat) (D : String → Discipline) (role : Role)
+theorem table_sound (tr : Trace) (thr : Nat → Nat) (D : Nat → Discipline) (role : Role)
     (d : LDisc) (f : Fact) (i : Nat) (e : Event) (inst : Instance tr thr role f i e)
     (hD : D e.obj = d.interp thr) (hf : factComplies role d f = true) : Complies tr D i e := by
   unfold factComplies at hf
@@ -179,8 +179,8 @@ theorem table_sound (tr : Trace) (thr : String → Nat) (D : String → Discipli
 lexical fact that passes the table (`factOK`), the trace has no data race. The hypotheses `hinst`
 (every dynamic access is covered by an extracted fact, with the role table telling the truth) is
 the trusted part of C35. -/
-theorem no_race_of_facts (tr : Trace) (thr : String → Nat) (disc : List (String × LDisc))
-    (roles : List (String × Role)) (D : String → Discipline) (wf : WF tr)
+theorem no_race_of_facts (tr : Trace) (thr : Nat → Nat) (disc : List (Nat × LDisc))
+    (roles : List (Nat × Role)) (D : Nat → Discipline) (wf : WF tr)
     (hD : ∀ x d, lookup disc x = some d → D x = d.interp thr)
     (hinst : ∀ i, i < tr.length → ∀ e, tr[i]? = some e → e.isAccess →
       ∃ f, factOK disc roles f = true ∧ Instance tr thr (roleOf roles f.fn) f i e) :
@@ -197,14 +197,15 @@ theorem no_race_of_facts (tr : Trace) (thr : String → Nat) (disc : List (Strin
 
 /-! ## Non-vacuity: concrete traces -/
 
-/-- main spawns two threads; both take `m` exclusively around their access to `x`. -/
+/-- main writes `x` (location 7), spawns two threads; one writes `x` holding mutex `m` (9)
+exclusively, the other reads it holding `m` shared; main joins both and writes `x` again. -/
 def okTrace : Trace := [
-  ⟨0, .write, "x", 0⟩, ⟨0, .spawn, "", 1⟩, ⟨0, .spawn, "", 2⟩,
-  ⟨1, .acqEx, "m", 0⟩, ⟨1, .write, "x", 0⟩, ⟨1, .relEx, "m", 0⟩,
-  ⟨2, .acqSh, "m", 0⟩, ⟨2, .read, "x", 0⟩, ⟨2, .relSh, "m", 0⟩,
-  ⟨0, .join, "", 1⟩, ⟨0, .join, "", 2⟩, ⟨0, .write, "x", 0⟩]
+  ⟨0, .write, 7, 0⟩, ⟨0, .spawn, 0, 1⟩, ⟨0, .spawn, 0, 2⟩,
+  ⟨1, .acqEx, 9, 0⟩, ⟨1, .write, 7, 0⟩, ⟨1, .relEx, 9, 0⟩,
+  ⟨2, .acqSh, 9, 0⟩, ⟨2, .read, 7, 0⟩, ⟨2, .relSh, 9, 0⟩,
+  ⟨0, .join, 0, 1⟩, ⟨0, .join, 0, 2⟩, ⟨0, .write, 7, 0⟩]
 
-def lockX : String → Discipline := fun _ => .lock "m"
+def lockX : Nat → Discipline := fun _ => .lock 9
 
 theorem okTrace_wf : WF okTrace := wf_of_dec (by decide +kernel) (by decide +kernel) (by decide +kernel) (by decide +kernel)
 
@@ -225,14 +226,14 @@ theorem okTrace_ordered :
 
 /-- The same program with the reader's `RLock`/`RUnlock` dropped. -/
 def racyTrace : Trace := [
-  ⟨0, .spawn, "", 1⟩, ⟨0, .spawn, "", 2⟩,
-  ⟨1, .acqEx, "m", 0⟩, ⟨1, .write, "x", 0⟩, ⟨2, .read, "x", 0⟩, ⟨1, .relEx, "m", 0⟩]
+  ⟨0, .spawn, 0, 1⟩, ⟨0, .spawn, 0, 2⟩,
+  ⟨1, .acqEx, 9, 0⟩, ⟨1, .write, 7, 0⟩, ⟨2, .read, 7, 0⟩, ⟨1, .relEx, 9, 0⟩]
 
 /-- **Dropping one lock admits a race.** The trace is well formed, every access but the unlocked
 read complies with `lock m`, and the write at 3 and the read at 4 are a data race. -/
 theorem dropped_lock_races :
-    WF racyTrace ∧ Complies racyTrace lockX 3 ⟨1, .write, "x", 0⟩ ∧
-    ¬ Complies racyTrace lockX 4 ⟨2, .read, "x", 0⟩ ∧ Race racyTrace 3 4 := by
+    WF racyTrace ∧ Complies racyTrace lockX 3 ⟨1, .write, 7, 0⟩ ∧
+    ¬ Complies racyTrace lockX 4 ⟨2, .read, 7, 0⟩ ∧ Race racyTrace 3 4 := by
   refine ⟨wf_of_dec (by decide +kernel) (by decide +kernel) (by decide +kernel) (by decide +kernel), by decide +kernel, by decide +kernel,
     by decide +kernel, by decide +kernel, ?_⟩
   intro h
@@ -245,7 +246,7 @@ theorem dropped_lock_races :
 
 /-- An atomic location accessed once non-atomically is a race as well (the "atomic changed to a
 plain access" mutation). -/
-def mixedTrace : Trace := [⟨0, .spawn, "", 1⟩, ⟨0, .atomic, "n", 0⟩, ⟨1, .write, "n", 0⟩]
+def mixedTrace : Trace := [⟨0, .spawn, 0, 1⟩, ⟨0, .atomic, 5, 0⟩, ⟨1, .write, 5, 0⟩]
 
 theorem mixed_atomic_races : WF mixedTrace ∧ Race mixedTrace 1 2 := by
   refine ⟨wf_of_dec (by decide +kernel) (by decide +kernel) (by decide +kernel) (by decide +kernel), by decide +kernel, by decide +kernel, ?_⟩
@@ -294,16 +295,16 @@ theorem unresolved_reviewed :
 and confined accesses that the table accepts. -/
 theorem facts_nonvacuous :
     accessFacts.length ≥ 500 ∧
-    accessFacts.contains ⟨"StressRelief.stressLevels", "StressRelief.onStressLevelUpdate", .write,
-      [("StressRelief.lock", .ex)], false⟩ = true ∧
-    accessFacts.contains ⟨"StressRelief.stressed", "StressRelief.Stressed", .read,
-      [("StressRelief.lock", .sh)], false⟩ = true ∧
-    accessFacts.contains ⟨"CollectorWorker.lastCacheSize", "CollectorWorker.collect", .atomic, [], false⟩ = true ∧
-    accessFacts.contains ⟨"CollectorWorker.localSpanProcessed", "CollectorWorker.getLastSpanProcessed",
+    accessFacts.contains ⟨L.«StressRelief.stressLevels», F.«StressRelief.onStressLevelUpdate», .write,
+      [(L.«StressRelief.lock», .ex)], false⟩ = true ∧
+    accessFacts.contains ⟨L.«StressRelief.stressed», F.«StressRelief.Stressed», .read,
+      [(L.«StressRelief.lock», .sh)], false⟩ = true ∧
+    accessFacts.contains ⟨L.«CollectorWorker.lastCacheSize», F.«CollectorWorker.collect», .atomic, [], false⟩ = true ∧
+    accessFacts.contains ⟨L.«CollectorWorker.localSpanProcessed», F.«CollectorWorker.getLastSpanProcessed»,
       .write, [], false⟩ = true ∧
-    factOK disciplines roles ⟨"StressRelief.stressLevels", "StressRelief.onStressLevelUpdate", .write, [], false⟩ = false ∧
-    factOK disciplines roles ⟨"CollectorWorker.localSpanProcessed", "CollectorWorker.addSpan", .write, [], false⟩ = false ∧
-    factOK disciplines roles ⟨"CollectorWorker.lastCacheSize", "CollectorWorker.collect", .write, [], false⟩ = false := by
+    factOK disciplines roles ⟨L.«StressRelief.stressLevels», F.«StressRelief.onStressLevelUpdate», .write, [], false⟩ = false ∧
+    factOK disciplines roles ⟨L.«CollectorWorker.localSpanProcessed», F.«CollectorWorker.addSpan», .write, [], false⟩ = false ∧
+    factOK disciplines roles ⟨L.«CollectorWorker.lastCacheSize», F.«CollectorWorker.collect», .write, [], false⟩ = false := by
   decide +kernel
 
 end Refinery.Props.C35
